@@ -195,16 +195,39 @@ def classify : Addr → Gen.C22.Cls
   | .v4 n => lookup Gen.C22.v4Table n
   | .v6 n _ => lookup Gen.C22.v6Table n
 
+/-! ### the same classes, by membership in the interpreter's network constants
+
+`IPv4Network.__contains__(addr)` is `addr._ip & netmask._ip == network_address._ip`; clearing the host bits is
+`n / 2^(bits-prefixlen) * 2^(bits-prefixlen)`. -/
+
+def inNet (bits : Nat) (net : Nat × Nat) (n : Nat) : Bool :=
+  n / 2 ^ (bits - net.2) * 2 ^ (bits - net.2) == net.1
+
+/-- `any(addr in net for net in nets)` -/
+def inAny (bits : Nat) (nets : List (Nat × Nat)) (n : Nat) : Bool := nets.any (inNet bits · n)
+
+/-- `IPv4Address.is_loopback / is_private / is_global` of CPython 3.12.1 -/
+def memberCls4 (n : Nat) : Gen.C22.Cls :=
+  let p := inAny 32 Gen.C22.private4 n
+  ⟨inAny 32 Gen.C22.loopback4 n, p, !inAny 32 Gen.C22.public4 n && !p⟩
+
+/-- `IPv6Address.is_loopback / is_private / is_global` of CPython 3.12.1 for an address that is not
+    IPv4-mapped (`Block` hands mapped addresses over as IPv4 addresses, see `effective`) -/
+def memberCls6 (n : Nat) : Gen.C22.Cls :=
+  let p := inAny 128 Gen.C22.private6 n
+  ⟨inAny 128 Gen.C22.loopback6 n, p, !p⟩
+
+def memberCls : Addr → Gen.C22.Cls
+  | .v4 n => memberCls4 n
+  | .v6 n _ => memberCls6 n
+
 /-! ### `Block.client_connected` -/
 
-inductive Mode where
-  | regular | transparent | upstream | reverse | socks5 | dns | wireguard | local | tun
-  deriving DecidableEq, Repr
+/-- `isinstance(client.proxy_mode, mode_specs.LocalMode)`: `LocalMode` occurs in the `__mro__` of the mode's
+    class (the class hierarchy is regenerated from `mode_specs` on every run, `Gen.C22.Mode.mro`) -/
+def _root_.MitmVerif.Gen.C22.Mode.isLocal (m : Gen.C22.Mode) : Bool := m.mro.contains "LocalMode"
 
-/-- `isinstance(client.proxy_mode, mode_specs.LocalMode)` -/
-def Mode.isLocal : Mode → Bool
-  | .local => true
-  | _ => false
+export Gen.C22 (Mode)
 
 inductive Verdict where
   | pass            -- client.error stays None
